@@ -157,6 +157,7 @@ func (g *exprGen) Gen(typ string, depth int, wide bool) []TExpr {
 			out = append(out,
 				new(builder).s(`{ k = `).e(sub("string")).s(`, l = `).e(subRef()).s(` }`).done("object-cons"),
 				new(builder).s(`{ (`).e(subRef()).s(`) = `).e(subRef()).s(` }`).done("parenthesised-key"),
+				new(builder).s("{ \"${").e(subRef()).s("}-a\" = \"s\" }").done("template-key"),
 				func() TExpr {
 					r := subRef()
 					return new(builder).s(`{ k = `).e(r).s(`, l = `).e(r).s(` }`).done("repeated-reference-in-object")
